@@ -1,6 +1,9 @@
 package remoting
 
 import (
+	"encoding/binary"
+	"fmt"
+	"io"
 	"net"
 	"time"
 
@@ -27,12 +30,23 @@ func (h *Handshake) Send(conn net.Conn) error {
 }
 
 func (h *Handshake) Wait(conn net.Conn) error {
-	var buf = make([]byte, 4096)
 	if err := conn.SetReadDeadline(time.Now().Add(time.Second * 10)); err != nil {
 		return err
 	}
 
-	if _, err := conn.Read(buf); err != nil {
+	// 握手报文为 4 字节长度 + 地址；TCP 可能把它拆成多次读取，也可能与后续帧合并到一次读取中，
+	// 因此必须按长度精确读取，既不能少读（地址被截断、剩余字节被当作帧头），也不能多读（吞掉后续帧）
+	var lengthBuf = make([]byte, 4)
+	if _, err := io.ReadFull(conn, lengthBuf); err != nil {
+		return err
+	}
+	length := binary.BigEndian.Uint32(lengthBuf)
+	if length > 4096 {
+		return fmt.Errorf("handshake address too long: %d", length)
+	}
+	var buf = make([]byte, 4+int(length))
+	copy(buf, lengthBuf)
+	if _, err := io.ReadFull(conn, buf[4:]); err != nil {
 		return err
 	}
 	reader := messages.NewReaderFromPool(buf)
